@@ -64,6 +64,20 @@ type Sched struct {
 	Trace   []Yield
 	Deadlock bool
 	Blocked  []string
+	Leaked   []string // locks still held when every task had finished (a return path without Unlock)
+	held     map[*rw]int
+}
+
+func (s *Sched) note(l *rw, d int) {
+	s.mu.Lock()
+	if s.held == nil {
+		s.held = map[*rw]int{}
+	}
+	s.held[l] += d
+	if s.held[l] <= 0 {
+		delete(s.held, l)
+	}
+	s.mu.Unlock()
 }
 
 var (
@@ -137,6 +151,11 @@ func (s *Sched) Run(fns []func()) {
 			}
 		}
 		if unfinished == 0 {
+			s.mu.Lock()
+			for l, n := range s.held {
+				s.Leaked = append(s.Leaked, fmt.Sprintf("%s (held %d times)", l.name(), n))
+			}
+			s.mu.Unlock()
 			return
 		}
 		if len(enabled) == 0 {
@@ -236,15 +255,23 @@ func (l *rw) lock() {
 			delete(l.waiters, t)
 		}
 		l.writer = t
+		s.note(l, 1)
 	}
 	l.real.Lock()
 }
 
 func (l *rw) unlock() {
-	if _, t := current(); t != nil && l.writer == t {
+	if s, t := current(); t != nil && l.writer == t {
 		l.writer = nil
+		s.note(l, -1)
 	} else if l.writer != nil && t == nil {
 		l.writer = nil
+		activeMu.RLock()
+		a := active
+		activeMu.RUnlock()
+		if a != nil {
+			a.note(l, -1)
+		}
 	}
 	l.real.Unlock()
 }
@@ -264,12 +291,14 @@ func (l *rw) rlock() {
 			l.readers = map[*Task]int{}
 		}
 		l.readers[t]++
+		s.note(l, 1)
 	}
 	l.real.RLock()
 }
 
 func (l *rw) runlock() {
-	if _, t := current(); t != nil && l.readers != nil {
+	if s, t := current(); t != nil && l.readers != nil {
+		s.note(l, -1)
 		if l.readers[t] > 1 {
 			l.readers[t]--
 		} else {
